@@ -43,48 +43,46 @@ theorem stripBOM_spec (bs : List UInt8) :
     reaches the end of input (EOF token `k`), the items are in order, do not overlap, the EOF item is
     the last one, is empty and sits at the end, and the table's data is the input minus a BOM. -/
 theorem lex_items_tile (lenient : Bool) (bs : List UInt8) (k : Nat)
-    (hnp : (lexAll lenient bs).panicked = false) (heof : (lexAll lenient bs).eof = some k) :
+    (heof : (lexAll lenient bs).eof = some k) :
     ItemsOk 0 (lexAll lenient bs).fi.items ∧
     endFrom 0 (lexAll lenient bs).fi.items = (stripBOM bs).length ∧
     (lexAll lenient bs).fi.data = stripBOM bs ∧
     (lexAll lenient bs).fi.items.getLast? = some ⟨(stripBOM bs).length, 0⟩ ∧
     k + 1 = (lexAll lenient bs).fi.items.length := by
-  rcases lexAll_final lenient bs with ⟨hp, _⟩ | ⟨⟨rs, hc⟩, htab, he⟩
-  · rw [hp.1] at hnp; cases hnp
-  · rcases he with he | ⟨_, k', hk', hlen, hlast⟩
-    · rw [he] at heof; cases heof
-    · rw [hk'] at heof
-      simp only [Option.some.injEq] at heof
-      subst heof
-      refine ⟨htab.items_ok, ?_, hc.hdata, hlast, hlen⟩
-      rw [endFrom_getLast _ _ hlast]; simp
+  obtain ⟨⟨rs, hc⟩, htab, he⟩ := lexAll_final lenient bs
+  rcases he with he | ⟨_, k', hk', hlen, hlast⟩
+  · rw [he] at heof; cases heof
+  · rw [hk'] at heof
+    simp only [Option.some.injEq] at heof
+    subst heof
+    refine ⟨htab.items_ok, ?_, hc.hdata, hlast, hlen⟩
+    rw [endFrom_getLast _ _ hlast]; simp
 
-/-- whatever happens (errors, early stop), as long as the lexer did not panic its items are in
-    order, do not overlap and lie inside the file -/
-theorem lex_items_ok (lenient : Bool) (bs : List UInt8) (hnp : (lexAll lenient bs).panicked = false) :
+/-- whatever happens (errors, early stop) the lexer's items are in order, do not overlap and lie
+    inside the file -/
+theorem lex_items_ok (lenient : Bool) (bs : List UInt8) :
     ItemsOk 0 (lexAll lenient bs).fi.items ∧
     endFrom 0 (lexAll lenient bs).fi.items ≤ (stripBOM bs).length := by
-  rcases lexAll_final lenient bs with ⟨hp, _⟩ | ⟨⟨rs, hc⟩, htab, _⟩
-  · rw [hp.1] at hnp; cases hnp
-  · exact ⟨htab.items_ok, Nat.le_trans htab.items_end hc.pos_le⟩
+  obtain ⟨⟨rs, hc⟩, htab, _⟩ := lexAll_final lenient bs
+  exact ⟨htab.items_ok, Nat.le_trans htab.items_end hc.pos_le⟩
 
 /-- **C11 (items).** Printing every item's leading whitespace and raw text, in item order, of any
     completely lexed file reproduces the file (minus a leading BOM) byte for byte. -/
 theorem C11_items (lenient : Bool) (bs : List UInt8) (k : Nat)
-    (hnp : (lexAll lenient bs).panicked = false) (heof : (lexAll lenient bs).eof = some k) :
+    (heof : (lexAll lenient bs).eof = some k) :
     printItems (lexAll lenient bs).fi = stripBOM bs := by
-  obtain ⟨h1, h2, h3, _, _⟩ := lex_items_tile lenient bs k hnp heof
+  obtain ⟨h1, h2, h3, _, _⟩ := lex_items_tile lenient bs k heof
   have := print_items_eq_data (lexAll lenient bs).fi h1 (by rw [h2, h3])
   rw [this, h3]
 
 /-- **C11 (AST).** If the walk over the terminal nodes, with each token's leading and trailing
     comments, visits the items `0, 1, …, n-1` in order, the AST print reproduces the file. -/
 theorem C11_ast (lenient : Bool) (bs : List UInt8) (k : Nat) (toks : List Nat)
-    (hnp : (lexAll lenient bs).panicked = false) (heof : (lexAll lenient bs).eof = some k)
+    (heof : (lexAll lenient bs).eof = some k)
     (hvisit : visitOrder (lexAll lenient bs).fi toks = List.range (lexAll lenient bs).fi.items.length) :
     printAST (lexAll lenient bs).fi toks = stripBOM bs := by
   rw [printAST_eq_printItems _ _ hvisit]
-  exact C11_items lenient bs k hnp heof
+  exact C11_items lenient bs k heof
 
 -- non-vacuity: `a /* t */<LF>b // e` with a BOM in front; the walk order of its tokens is 0..4
 def sample : List UInt8 :=
